@@ -28,7 +28,7 @@ def esc(s): return s.replace('|', '\\|').replace('\n', ' ')
 now = parse('/verif/tools/matrix_last.txt', 0)
 p = '/verif/DESIGN.md'
 s = open(p).read()
-for rnd in (3, 4, 5):
+for rnd in (3, 4, 5, 6):
     first = parse(f'/verif/tools/round{rnd}_first_run.txt', rnd)
     second = parse(f'/verif/tools/round{rnd}_second_run.txt', rnd)
     rows = ['| id | seeded change (sub-agent\'s summary) | needs to manifest | first run | now |', '|---|---|---|---|---|']
